@@ -27,6 +27,15 @@ CHECKS = {
         note="Caller params/cookies are dicts (as generated clients pass them); names/values from token-safe alphabets; a caller name equal to an API-key name is never generated (the property does not say who wins); httpx encoding trusted.",
         design="§5 C17",
     ),
+    "C20": dict(
+        category="exploration",
+        technique="exhaustive enumeration of all strings of length <=4 over an 18-character alphabet through every name-derivation function with a call site, plus Hypothesis Unicode text and keyword spellings; validity predicate oracle (non-empty, isidentifier, not keyword); namespace collision cases through generate_client + import",
+        text="Totality/validity is decided exhaustively for short strings (111 151 strings x 5 derivation functions) and sampled for "
+             "long Unicode strings; collision-safety is decided by placing colliding/hostile raw names in each namespace of a real "
+             "spec and counting distinct identifiers in the imported package. Search with an exhaustive small scope, not a proof.",
+        note="Derivation functions without call sites are not checked; strings longer than 4 are sampled; part (b) namespaces limited to the listed kinds.",
+        design="§5 C20",
+    ),
 }
 
 ALL = [f"C{i:02d}" for i in range(1, 21)]
